@@ -453,6 +453,9 @@ pub struct World<'a> {
     /// judged by `settle` after the history has ended
     pub deferred: bool,
     pub pending: Vec<Pending>,
+    /// print every operation (as JSON, flushed) before applying it: lets a parent process
+    /// reconstruct the history of a child that dies inside cipher code
+    pub trace: bool,
 }
 
 /// A call whose judgement is deferred to the end of the run (cold-start mode).
@@ -501,6 +504,7 @@ impl<'a> World<'a> {
             notes: Vec::new(),
             deferred: false,
             pending: Vec::new(),
+            trace: false,
         }
     }
 
@@ -644,6 +648,11 @@ impl<'a> World<'a> {
 
     /// Apply one operation. `Ok(applied)`; a violation of any property is returned as `Err`.
     pub fn apply(&mut self, op: &Op) -> Result<StepOut, Violation> {
+        if self.trace {
+            use std::io::Write;
+            println!("@op {} {}", self.step, op.to_json(self.reg));
+            let _ = std::io::stdout().flush();
+        }
         self.stats.steps += 1;
         let r = self.apply_inner(op);
         match &r {
@@ -1127,10 +1136,9 @@ impl<'a> World<'a> {
             let res = guard(|| unsafe { f(ip, shape, pi, po, n) });
             let stray = self.arena.diff_outside(out_off, len);
             let got = self.arena.get(out_off, len);
-            if let Some(off) = stray {
-                let in_input = !same && off >= in_off && off < in_off + len;
-                let a = self.arena.get(off, 1);
-                let e = self.arena.shadow[off];
+            if let Some((off, e, a)) = stray {
+                let in_input = !same && off >= in_off as i64 && off < (in_off + len) as i64;
+                let (a, e) = (vec![a], e);
                 self.arena.restore();
                 return Err(self.viol(
                     "C04",
@@ -1218,10 +1226,9 @@ impl<'a> World<'a> {
             let res = guard(|| unsafe { f(ip, shape, pi, po, n) });
             let stray = self.arena.diff_outside(out_off, len);
             let got = self.arena.get(out_off, len);
-            if let Some(off) = stray {
-                let in_input = !same && off >= in_off && off < in_off + len;
-                let a = self.arena.get(off, 1);
-                let e = self.arena.shadow[off];
+            if let Some((off, e, a)) = stray {
+                let in_input = !same && off >= in_off as i64 && off < (in_off + len) as i64;
+                let (a, e) = (vec![a], e);
                 self.arena.restore();
                 return Err(self.viol(
                     "C04",
